@@ -106,7 +106,8 @@ PROPS["C09"] = dict(
     technique="deterministic simulation: seeded mutation/marshal histories on regenerated fast-marshal types against a fresh-copy oracle; concurrent readers under the invisible cooperative scheduler with the race detector",
     design_ref="DESIGN.md 4.1, 4.2, 4.9, 5 (C09)",
     level_text=("History part: seeded search over histories of field mutations, Size/Marshal/MarshalTo through generated methods, csproto and the owning runtime, "
-                "Unmarshal, Reset and Clone on every message type of the regenerated example corpus (87 types, three runtimes); every Marshal must equal - modulo "
+                "Unmarshal, Reset and Clone on every message type of the regenerated example corpus (87 types, three runtimes) and on plain runtime types without generated methods (protobuf-go WKTs and descriptor "
+                "messages, gogo types, a golang-v1 type), including MarshalTo into a buffer the caller sized without calling Size on the object; every Marshal must equal - modulo "
                 "map-entry order - the same call on a brand-new struct holding the same contents, and must not panic. Schedule part: 2..N goroutines run drawn "
                 "scripts of Size/Marshal calls on one shared, unmutated message under a seeded scheduler with yields before every call and before every size-cache "
                 "atomic in the regenerated code; every result must equal the fresh-copy result and the race detector must stay silent. Sampling, not proof."),
@@ -212,8 +213,8 @@ PROPS["C12"] = dict(
     design_ref="DESIGN.md 4.1, 5 (C12)",
     level_text=("Seeded search over operation histories on messages with extensions of each runtime: gogo (example BaseEvent with a message-typed extension, descriptor.FieldOptions/"
                 "MessageOptions with bool and string gogoproto extensions), protobuf-go v2 (example BaseEvent of both the googlev1 and googlev2 packages with the message-typed "
-                "extension plus bool/int32/string/bytes/enum extensions built dynamically, descriptorpb.FeatureSet with gofeaturespb), and a hand-written pre-ProtoReflect legacy "
-                "fixture that is classified MessageTypeGoogleV1. After every step: Has/Get agree with a model map and with the owning runtime's own API, Range visits exactly the set "
+                "extension plus bool/int32/string/bytes/enum extensions built dynamically, descriptorpb.FeatureSet with gofeaturespb, a dynamicpb message of BaseEvent), and a hand-written pre-ProtoReflect legacy "
+                "fixture that is classified MessageTypeGoogleV1 (with one deliberately unregistered extension). Perturbation steps pass a typed nil and a non-extendable dynamic message through the accessors. After every step: Has/Get agree with a model map and with the owning runtime's own API, Range visits exactly the set "
                 "field numbers and propagates a failing callback's error, cleared extensions are absent from csproto.Marshal output, and a descriptor of another runtime yields "
                 "false/error (ClearExtension: documented panic) and leaves the message unchanged."),
     level_note="Trusted: the runtimes' own extension APIs (oracle), protobuf-go reflection for digests, the legacy fixture.",
@@ -232,9 +233,10 @@ PROPS["C08"] = dict(
     engine="medium",
     technique="deterministic fault injection on a stored message: writer -> faulty medium -> regenerated Unmarshal vs dynamicpb reference; exhaustive single-fault enumeration (every truncation offset, every bit flip) per drawn small message plus seeded fault combinations; allocation metering",
     design_ref="DESIGN.md 4.4, 5 (C08)",
-    level_text=("For drawn valid messages of every corpus type (87 types, three runtimes), written by the harness's reference encoder, the medium damages the stored bytes: for messages of "
-                "up to 160 bytes every truncation offset and every single-bit flip is enumerated, otherwise a drawn combination of up to three faults (truncate, bit flip, inflate/deflate a "
-                "length prefix incl. 2^31-1/2^31/2^63, duplicate or drop a record) is applied. The regenerated Unmarshal must not panic, must allocate linearly in the input, and whenever "
+    level_text=("For drawn valid messages (fully populated or sparse: 1-3 fields) of every corpus type (87 types, three runtimes), written by the harness's reference encoder, the medium damages the stored bytes: for messages of "
+                "up to 160 bytes every truncation offset and every single-bit flip is enumerated, otherwise the undamaged message plus a drawn combination of up to three faults (truncate, bit flip, inflate/deflate a "
+                "length prefix incl. 2^31-1/2^31/2^63, duplicate or drop a record) is applied, and (always in the exhaustive mode, else 1 in 2) every top-level length prefix is swept over "
+                "seven values from len+1 to 2^63. The regenerated Unmarshal must not panic, must allocate linearly in the input, and whenever "
                 "it and the reference runtime (dynamicpb on the schema's own descriptor) both accept, the decoded messages must have the same canonical digest. A reader rejecting what the "
                 "other accepts is not a violation (the property only constrains the accept/accept case). No scheduler or clock is involved: this is the single-actor corner of the technique."),
     level_note="Trusted: the reference encoder, dynamicpb + protodesc, protobuf-go's legacy wrapper for reading gogo structs, runtime/metrics.",
@@ -257,7 +259,8 @@ PROPS["C06"] = dict(
     level_text=("ONLY the clause 'the result does not depend on what the destination message contained before the call' is claimed. A drawn history dirties a destination of a corpus type "
                 "(populate, mutate, Size/Marshal to warm the cache, an earlier Unmarshal of other bytes, a failed Unmarshal of truncated bytes); then the same bytes (a reference-encoded "
                 "drawn message, or the zero-length encoding) are decoded into the dirty destination and into a fresh one, through the generated method or csproto.Unmarshal: error nil-ness, "
-                "canonical digests and the two subsequent Marshals must agree. The clause about every legal encoding variant (order, packing, splits, duplicates, map-entry shapes) is input "
+                "canonical digests and the two subsequent Marshals must agree. Process-wide history is covered by canaries: the first canonical encoding of each type that a worker "
+                "process decoded successfully is decoded again after every later execution (which include failed decodes of damaged bytes) and must give the same outcome. The clause about every legal encoding variant (order, packing, splits, duplicates, map-entry shapes) is input "
                 "space and is NOT covered."),
     level_note="Trusted: protobuf-go reflection for populating and digesting, the reference encoder. Self-differential: decode defects independent of the destination are out of scope.",
     needs=["corpus"],
